@@ -22,7 +22,7 @@ MODELLED = (
     "Devices are the harness's fake devices: static describe()/protocols = environment E, readings and asset "
     "documents are op payloads. Old-style flyer paths (describe_collect without declare_stream, collect()/"
     "collect_pages()) answer EUnmodelled. Documents are abstract records; uids compared by first appearance.")
-RULE = ("corpus; exhaustive: every op sequence of length <= 3 (quick; plus 400 sampled of length 4) / <= 4 (thorough; plus 3000 sampled of length 5..7) over {create, read o1, read o2, "
+RULE = ("corpus; exhaustive: every op sequence of length <= 3 (quick; plus 300 sampled of length 4) / <= 4 (thorough; plus 3000 sampled of length 5..7) over {create, read o1, read o2, "
         "read o3 (keys overlap o2), save, drop, checkpoint, configure o1} after open_run; random walks (profiles bundle/"
         "mixed, 6..28 ops, 8% arbitrary ops, 30% random device universes, strict pre-declare 15%, both create forms); "
         "malformed stream (35% arbitrary ops: bad readings, ops before open_run, wrong protocols, bad asset docs). "
@@ -39,10 +39,10 @@ def cases(rng, tier):
     for ops in bc.enum_sequences(ALPHABET, maxlen):
         out.append(bc.mk(bc.DEVS[:3], ops, tag="enum"))
     # a seeded sample of the next lengths
-    for _ in range(400 if tier == "quick" else 3000):
+    for _ in range(300 if tier == "quick" else 3000):
         k = 4 if tier == "quick" else rng.randint(5, 7)
         out.append(bc.mk(bc.DEVS[:3], [["open_run"]] + [bc._thaw(rng.choice(ALPHABET)) for _ in range(k)], tag="enum+"))
-    n = 240 if tier == "quick" else 3000
+    n = 180 if tier == "quick" else 3000
     out += bc.random_cases(rng, n, "bundle")
     out += bc.random_cases(rng, n // 3, "mixed")
     out += bc.random_cases(rng, n // 3, "bundle", wild=0.35, tag="malformed")
